@@ -296,6 +296,38 @@ Proof.
     + inversion H; subst. now apply Hdet.
 Qed.
 
+(* set_mates changes the CRAM flags and the mate distance only *)
+Definition core (r : mrec) :=
+  (m_flags r, m_name r, m_ref r, m_start r, m_rl r, m_feats r, m_mref r, m_mstart r, m_tlen r).
+
+Lemma nth_upd_clear_core : forall l k x,
+  core (nth x (upd l k clear_detached) dflt_mrec) = core (nth x l dflt_mrec).
+Proof.
+  intros l k x. destruct (Nat.eq_dec x k) as [->|Hne]; [|now rewrite nth_upd_other].
+  destruct (Nat.lt_ge_cases k (length l)) as [Hlt|Hge].
+  - now rewrite nth_upd_same.
+  - rewrite !nth_overflow; [reflexivity|lia|rewrite length_upd; lia].
+Qed.
+
+Lemma set_mates_from_core : forall rep rs i x,
+  core (nth x (fst (set_mates_from rep i rs)) dflt_mrec) = core (nth x rs dflt_mrec).
+Proof.
+  intros rep. induction rs as [|r tl IH]; intros i x; cbn [set_mates_from]; [reflexivity|].
+  specialize (IH (S i)). destruct (set_mates_from rep (S i) tl) as [tl' m'] eqn:E. cbn [fst] in IH.
+  destruct (eligible r); [destruct (nm_get (m_name r) m') as [j|];
+    [destruct (link_ok rep r (nth (j - S i) tl' dflt_mrec))|]|];
+    cbn [fst]; destruct x as [|x]; cbn [nth]; try reflexivity; try apply IH.
+  rewrite nth_upd_clear_core. apply IH.
+Qed.
+
+Lemma set_mates_gen_view : forall rep rs x,
+  mate_view (rget (set_mates_gen rep rs) x) = mate_view (rget rs x).
+Proof.
+  intros rep rs x. unfold set_mates_gen, rget.
+  pose proof (set_mates_from_core rep rs 0 x) as H. unfold core in H. unfold mate_view.
+  inversion H. congruence.
+Qed.
+
 (* ---------------------------------------------------------------- theorem: detached records *)
 Lemma set_mates_gen_wf : forall rep rs, Forall fresh rs ->
   length (set_mates_gen rep rs) = length rs /\ linked_wf (set_mates_gen rep rs).
@@ -359,6 +391,125 @@ Proof.
   rewrite (resolve_fold_frame mi x _ st mi (sub_mi_refl mi) Hun).
   pose proof (store_all_nth _ st x Hst ltac:(lia)) as Hs.
   rewrite (store_detached _ _ Hd Hs). split; [reflexivity|].
-  (* set_mates changes cram flags and the mate distance only *)
-  admit.
-Admitted.
+  apply set_mates_gen_view.
+Qed.
+
+(* ---------------------------------------------------------------- theorem: a slice of two records *)
+Lemma oN_eqb_eq : forall a b, oN_eqb a b = true <-> a = b.
+Proof.
+  intros [a|] [b|]; cbn; split; intro H; try discriminate; try reflexivity.
+  - apply N.eqb_eq in H. now subst.
+  - inversion H. apply N.eqb_refl.
+Qed.
+
+Lemma tlen_calc_ext : forall r r' m m',
+  m_start r = m_start r' -> m_rl r = m_rl r' -> m_feats r = m_feats r' ->
+  m_start m = m_start m' -> m_rl m = m_rl m' -> m_feats m = m_feats m' ->
+  tlen_calc r m = tlen_calc r' m'.
+Proof.
+  intros r r' m m' H1 H2 H3 H4 H5 H6. unfold tlen_calc, r_alignment_end.
+  now rewrite H1, H2, H3, H4, H5, H6.
+Qed.
+
+(* set_mate only adds the bits 0x20 / 0x8: it never changes what a later set_mate reads *)
+Lemma keep_rev : forall r m, is_reverse (m_flags (set_mate r m)) = is_reverse (m_flags r).
+Proof.
+  intros r m. unfold set_mate, is_reverse, MATE_REVERSE, MATE_UNMAPPED. cbn [m_flags].
+  destruct (N.testbit (m_flags m) 4); destruct (is_unmapped (m_flags m));
+    rewrite ?N.lor_spec; cbn; now rewrite ?orb_false_r.
+Qed.
+Lemma keep_unm : forall r m, is_unmapped (m_flags (set_mate r m)) = is_unmapped (m_flags r).
+Proof.
+  intros r m. unfold set_mate, is_unmapped, MATE_REVERSE, MATE_UNMAPPED. cbn [m_flags].
+  destruct (is_reverse (m_flags m)); destruct (N.testbit (m_flags m) 2);
+    rewrite ?N.lor_spec; cbn; now rewrite ?orb_false_r.
+Qed.
+
+Lemma set_mate_flags_ext : forall r r' m m',
+  m_flags r = m_flags r' -> is_reverse (m_flags m) = is_reverse (m_flags m') ->
+  is_unmapped (m_flags m) = is_unmapped (m_flags m') ->
+  m_flags (set_mate r m) = m_flags (set_mate r' m').
+Proof. intros r r' m m' H1 H2 H3. unfold set_mate. cbn [m_flags]. now rewrite H1, H2, H3. Qed.
+
+Lemma view_eq : forall (r : mrec) f mr ms t,
+  m_flags r = f -> m_mref r = mr -> m_mstart r = ms -> m_tlen r = t -> mate_view r = (f, mr, ms, t).
+Proof. intros; subst; reflexivity. Qed.
+
+(* two records that set_mates links (the unrepaired writer links whenever both are segmented,
+   not secondary and carry the same name): the reader returns exactly the recomputed fields, and
+   these are the stored ones if and only if the pair is [pair_consistent] *)
+Theorem linked_pair_roundtrip : forall a b,
+  fresh a -> fresh b -> eligible a = true -> eligible b = true ->
+  oname_eqb (m_name a) (m_name b) = true ->
+  exists a' b', slice_roundtrip_gen false [a; b] = MOk [a'; b'] /\
+    mate_view a' = (m_flags (set_mate a b), m_ref b, m_start b, tlen_calc b a) /\
+    mate_view b' = (m_flags (set_mate b a), m_ref a, m_start a, (- tlen_calc b a)%Z) /\
+    ((mate_view a' = mate_view a /\ mate_view b' = mate_view b) <-> pair_consistent a b = true).
+Proof.
+  intros a b (Ha1 & Ha2 & Ha3) (Hb1 & Hb2 & Hb3) Ea Eb En.
+  destruct a as [af an ar as_ arl afs amr ams at_ ad adn adi].
+  destruct b as [bf bn br bs brl bfs bmr bms bt bd bdn bdi].
+  cbn in Ha1, Ha2, Ha3, Hb1, Hb2, Hb3, En. subst.
+  unfold slice_roundtrip_gen, set_mates_gen. cbn [set_mates_from].
+  rewrite Ea, Eb. cbn [nm_get m_name fst]. rewrite En. cbn -[set_mate tlen_calc].
+  eexists. eexists. split; [reflexivity|].
+  match goal with |- ?V1 = _ /\ ?V2 = _ /\ _ =>
+    assert (Hva : V1 = (m_flags (set_mate (mk_mrec af an ar as_ arl afs amr ams at_ false false None)
+                                          (mk_mrec bf bn br bs brl bfs bmr bms bt false false None)),
+                        br, bs,
+                        tlen_calc (mk_mrec bf bn br bs brl bfs bmr bms bt false false None)
+                                  (mk_mrec af an ar as_ arl afs amr ams at_ false false None)));
+    [|assert (Hvb : V2 = (m_flags (set_mate (mk_mrec bf bn br bs brl bfs bmr bms bt false false None)
+                                            (mk_mrec af an ar as_ arl afs amr ams at_ false false None)),
+                          ar, as_,
+                          (- tlen_calc (mk_mrec bf bn br bs brl bfs bmr bms bt false false None)
+                                       (mk_mrec af an ar as_ arl afs amr ams at_ false false None))%Z))]
+  end.
+  - apply view_eq; try reflexivity; try (cbn [m_tlen set_tlen]; apply tlen_calc_ext; reflexivity).
+  - apply view_eq; try reflexivity;
+      try (cbn [m_tlen set_tlen]; apply (f_equal Z.opp); apply tlen_calc_ext; reflexivity).
+    cbn [m_flags set_tlen]. apply set_mate_flags_ext; [reflexivity|etransitivity; [apply keep_rev|reflexivity]|etransitivity; [apply keep_unm|reflexivity]].
+  - split; [exact Hva|]. split; [exact Hvb|]. rewrite Hva, Hvb.
+    unfold pair_consistent, mate_view. cbn [m_flags m_mref m_mstart m_tlen m_ref m_start].
+    rewrite !andb_true_iff, !N.eqb_eq, !oN_eqb_eq, !Z.eqb_eq.
+    split.
+    + intros [H1 H2]. injection H1 as E1 E2 E3 E4. injection H2 as E5 E6 E7 E8.
+      repeat split; try congruence; try exact E1; try exact E5.
+    + intros (((((((H1 & H2) & H3) & H4) & H5) & H6) & H7) & H8). split; congruence.
+Qed.
+
+(* the repaired writer: whatever the two records are, the slice reads back unchanged *)
+Lemma pair_consistent_detached : forall a b, pair_consistent a (set_detached b) = pair_consistent a b.
+Proof. reflexivity. Qed.
+
+Theorem repaired_pair_roundtrip : forall a b out,
+  fresh a -> fresh b ->
+  slice_roundtrip_gen true [a; b] = MOk out ->
+  map mate_view out = [mate_view a; mate_view b].
+Proof.
+  intros a b out Fa Fb H.
+  destruct (eligible a && eligible b && oname_eqb (m_name a) (m_name b) && pair_consistent a b) eqn:E.
+  - rewrite !andb_true_iff in E. destruct E as (((Ea & Eb) & En) & Epc).
+    assert (Hsame : slice_roundtrip_gen true [a; b] = slice_roundtrip_gen false [a; b]).
+    { unfold slice_roundtrip_gen, set_mates_gen. cbn [set_mates_from]. rewrite Ea, Eb.
+      cbn [nm_get m_name set_detached fst]. rewrite En. cbn [nth Nat.sub link_ok m_detached andb].
+      rewrite pair_consistent_detached, Epc. reflexivity. }
+    destruct (linked_pair_roundtrip a b Fa Fb Ea Eb En) as (a' & b' & Hrt & _ & _ & Hiff).
+    rewrite Hsame, Hrt in H. inversion H; subst. cbn [map].
+    destruct (proj2 Hiff Epc) as [V1 V2]. now rewrite V1, V2.
+  - (* not linked: both records stay detached and are stored verbatim *)
+    destruct Fa as (Ha1 & Ha2 & Ha3). destruct Fb as (Hb1 & Hb2 & Hb3).
+    destruct a as [af an ar as_ arl afs amr ams at_ ad adn adi].
+    destruct b as [bf bn br bs brl bfs bmr bms bt bd bdn bdi].
+    cbn in Ha1, Ha2, Ha3, Hb1, Hb2, Hb3. subst.
+    unfold slice_roundtrip_gen, set_mates_gen in H. cbn [set_mates_from] in H.
+    destruct (eligible (mk_mrec bf bn br bs brl bfs bmr bms bt false false None)) eqn:Eb;
+    destruct (eligible (mk_mrec af an ar as_ arl afs amr ams at_ false false None)) eqn:Ea;
+    cbn [nm_get m_name fst andb] in H, E.
+    1: destruct (oname_eqb an bn) eqn:En;
+       cbn [link_ok nth Nat.sub m_detached set_detached andb] in H, E;
+       [rewrite pair_consistent_detached in H; cbn [andb] in E; rewrite E in H|].
+    all: cbn in H;
+         repeat match type of H with context [if ?c then _ else _] => destruct c; try discriminate end;
+         inversion H; subst; reflexivity.
+Qed.
